@@ -362,7 +362,8 @@ def check_ppoly(chk, F, E):
             vals, atoms = st
             return [(vals, a) for a in refine(atoms, cond, pol, sc)]
 
-        fl = Flow(F, transfer, branch=branch)
+        # private helpers of the same class (e.g. a common 'reset to uninitialised' routine) are followed in place
+        fl = Flow(F, transfer, branch=branch, enter_call=lambda g, e: g.get("cls") == cls and g.get("body") is not None and (e.get("obj") is None or e["obj"].get("k") == "this"))
         out, exits = fl.run(f, ((), frozenset()))
         ends = [(s, None) for s in out] + exits
         rej, acc = [], []
